@@ -70,30 +70,39 @@ def prep(mdp):
 
 
 def gen_sparse(rng, nmax, gamma):
-    """larger, sparse, forward-leaning MDP (same JSON format as gen_mdp): every action of a
-    non-absorbing state moves to a higher-numbered state with positive probability and the last
-    state is absorbing, hence every policy is proper; detours and side branches make heuristic
-    search leave reachable states unexplored"""
+    """larger, sparse, forward-moving MDP (same JSON format as gen_mdp): states are 'main' or 'side';
+    every action of a non-absorbing state moves to a higher-numbered state with positive probability
+    and the last state is absorbing, hence every policy is proper; cheap main-line steps, costly
+    multi-step side chains, so heuristic search leaves reachable states unexplored"""
     n = rng.randint(6, nmax)
     nA = rng.randint(2, 3)
     absorbing = [False] * n
     absorbing[n - 1] = True
-    if rng.random() < .3:
-        absorbing[rng.randrange(n // 2, n - 1)] = True
+    side = [False] + [rng.random() < .45 for _ in range(n - 2)] + [False]
+    if rng.random() < .25:
+        absorbing[rng.choice(range(n // 2, n - 1))] = True
+
+    def nxt(s, want_side):
+        c = [x for x in range(s + 1, n) if side[x] == want_side]
+        return c[0] if c and rng.random() < .8 else (rng.choice(c[:3]) if c else rng.randint(s + 1, n - 1))
+
     actions, trans, reward = [], {}, {}
     for s in range(n):
-        acts = sorted(rng.sample(range(nA), rng.randint(1, nA)))
+        acts = sorted(rng.sample(range(nA), rng.randint(1 if side[s] else 2, nA)))
         actions.append(acts)
-        for a in acts:
+        for ai, a in enumerate(acts):
             if absorbing[s]:
                 trans["%d,%d" % (s, a)] = [[s, "1"]]
                 continue
-            fwd = rng.randint(s + 1, min(n - 1, s + 3))
+            stay_kind = (ai == 0) or rng.random() < .3      # first action keeps to the same kind of state
+            fwd = nxt(s, side[s] if stay_kind else not side[s])
             succ = [fwd]
-            if rng.random() < .45:
+            if rng.random() < .4:
                 other = rng.choice([x for x in range(max(0, s - 2), min(n, s + 4)) if x != fwd])
                 succ.append(other)
             ps = gen_mdp._split_prob(rng, len(succ), denom=4)
+            if len(succ) == 2 and rng.random() < .5:
+                ps = sorted(ps, reverse=True)
             row = [[ns, str(p)] for ns, p in zip(succ, ps)]
             if rng.random() < .1:
                 others = [x for x in range(n) if x not in succ]
@@ -101,11 +110,12 @@ def gen_sparse(rng, nmax, gamma):
             rng.shuffle(row)
             trans["%d,%d" % (s, a)] = row
             for ns, p in row:
-                r = F(-rng.randint(0, 6), rng.choice([1, 1, 2]))
+                cost = rng.randint(0, 2) if not (side[s] or side[ns]) else rng.randint(2, 7)
+                r = F(-cost, rng.choice([1, 1, 2]))
                 if r != 0:
                     reward["%d,%d,%d" % (s, a, ns)] = str(r)
-    k = rng.choice([1, 1, 2])
-    starts = rng.sample(range(0, max(1, n // 3)), min(k, max(1, n // 3)))
+    mains = [x for x in range(max(1, n // 3)) if not side[x]]
+    starts = rng.sample(mains, min(rng.choice([1, 1, 2]), len(mains)))
     ps = gen_mdp._split_prob(rng, len(starts), denom=4)
     init = [[s, str(p)] for s, p in zip(starts, ps)]
     return {"n": n, "nA": nA, "actions": actions, "trans": trans, "reward": reward,
@@ -115,14 +125,15 @@ def gen_sparse(rng, nmax, gamma):
 def gen_case(rng, tier):
     nmax = 7 if tier == "quick" else 10
     gamma = "1" if rng.random() < .3 else None
-    if rng.random() < .35:
-        m = gen_sparse(rng, 12 if tier == "quick" else 16, gamma)
+    sparse = rng.random() < .4
+    if sparse:
+        m = gen_sparse(rng, 13 if tier == "quick" else 16, gamma)
     else:
         m = gen_mdp.gen_mdp(rng, nmax=nmax, amax=3, gamma=gamma, proper=(gamma == "1"),
                             min_states=rng.choice([1, 2, 3, 4]))
     n, nA, P, R, av, absf, ini, g, masked = prep(m)
     Vs = c01.exact_vstar(P, R, av, masked, g)
-    kind = rng.choice(["const", "exact", "slack"])
+    kind = rng.choice(["const", "exact", "slack"] + (["exact", "slack"] if sparse else []))
     if kind == "const":
         c = max([F(0)] + Vs) + rng.choice([0, 1, 5])
         h = [c] * n
@@ -131,7 +142,7 @@ def gen_case(rng, tier):
     else:
         h = [v + rng.choice([F(0), F(1, 4), F(1), F(3)]) for v in Vs]
     hf = [up(x) for x in h]
-    return {"mdp": m, "shape": "sparse" if "sparse" in m else "dense", "h": [list(x.as_integer_ratio()) for x in hf], "hkind": kind,
+    return {"mdp": m, "shape": "sparse" if sparse else "dense", "h": [list(x.as_integer_ratio()) for x in hf], "hkind": kind,
             "seed": rng.randrange(4), "rao": rng.random() < .5, "rno": rng.random() < .5,
             "vstar": [str(v) for v in Vs]}
 
@@ -297,10 +308,30 @@ def terms_for(case, res):
         x = st["expand"][0] if len(st["expand"]) == 1 else n
         steps.append("(%s, %s, %s, %s, %s)" % (nat(x), blist(Z), blist(E), qlist(Vk), natlist(pk)))
     t_run = "runchk %s %s %s %s %s %s" % (mt, lao, qlist(Vs), q(rho), qlist(hq), coqlist(steps))
+    # mirror of update_ancestors_of, one term per iteration: graph as it is after expand_at(x), before the revision
+    m = case["mdp"]
+    listed = lambda s, a: [ns for ns, p in m["trans"]["%d,%d" % (s, a)]]
+    anc_terms = []
+    prev = {}
+    for st in res["trace"]:
+        nodes = {x[0]: x for x in st["nodes"]}
+        if len(st["expand"]) != 1:
+            prev = nodes
+            continue
+        x = st["expand"][0]
+        Epre = sorted(set(s for s, nd in prev.items() if nd[3]) | {x})
+        polpre = {s: (prev[s][2] if s in prev and prev[s][2] in m["actions"][s] else m["actions"][s][0]) for s in Epre}
+        succ = [listed(s, polpre[s]) if s in polpre else [] for s in range(n)]
+        plist = [[p for p in Epre if any(k in listed(p, a) for a in m["actions"][p])] for k in range(n)]
+        Z = [s in st["Z"] for s in range(n)]
+        anc_terms.append("anc_chk %s %s %s %s %s" % (nat(n), coqlist(natlist(r) for r in plist),
+                                                   coqlist(natlist(r) for r in succ), nat(x), blist(Z)))
+        prev = nodes
+    t_anc = coqlist(anc_terms)
     info = {"nC": len(C), "nExplored": sum(ex), "n": n, "steps": len(steps),
             "pruned": sum(ex) < len(gen_mdp.reachable(case["mdp"])),
             "sol_eq_C": set(res["solution_states"]) == C}
-    return t_chk, t_run, info
+    return t_chk, t_run, t_anc, info
 
 
 def run(ctx):
@@ -318,26 +349,35 @@ def run(ctx):
             ctx.violation("C03:laostar-raises:" + res["error"].split(":")[0],
                           {"case": case, "error": res["error"], "trace": res.get("trace")}, found=True)
             continue
-        t_chk, t_run, info = terms_for(case, res)
+        t_chk, t_run, t_anc, info = terms_for(case, res)
         infos.append(info)
-        terms += [t_chk, t_run]
-        meta += [("chk", i), ("run", i)]
+        terms += [t_chk, t_run, t_anc]
+        meta += [("chk", i), ("run", i), ("anc", i)]
         f = gen_mdp.features(case["mdp"])
         f["absorbing_initial"] = any(case["mdp"]["absorbing"][s] for s, p in case["mdp"]["init"] if F(p) > 0)
         f["h_" + case["hkind"]] = True
+        f["shape_" + case.get("shape", "dense")] = True
         f["rao"], f["rno"] = case["rao"], case["rno"]
         f["seed_%d" % case["seed"]] = True
         for k, v in f.items():
             if isinstance(v, bool):
                 feats[k] = feats.get(k, 0) + int(v)
-    vals = ctx.coq(PRE, terms, shard=8 if tier == "quick" else 30)
-    nchk = nrun = 0
+    vals = ctx.coq(PRE, terms, shard=12 if tier == "quick" else 36)
+    nchk = nrun = nanc = anc_drift = 0
+    anc_bad = []
     distinct = set()
     reported = set()
     for (kind, i), v in zip(meta, vals):
         case, res = cases[i], impl[i]
         if isinstance(v, vlib.CoqError):
             ctx.violation("C03:coq-evaluation-failed", {"case": case, "kind": kind, "error": str(v)[:800]}, found=False)
+            continue
+        if kind == "anc":
+            nanc += len(v)
+            if not all(v):
+                anc_drift += 1     # mirror of update_ancestors_of differs; run_ok (proved guard) decides
+                if i not in anc_bad:
+                    anc_bad.append(i)
             continue
         names = CLAUSES if kind == "chk" else RUN_CLAUSES
         failed = [c for c, okv in zip(names, v) if not okv]
@@ -361,11 +401,12 @@ def run(ctx):
                                             % ("c03_check" if kind == "chk" else "c03_run_raw", "result" if kind == "chk" else "recorded run"))
                 ctx.violation("C03:%s-rejects:%s" % ("certificate" if kind == "chk" else "run", "+".join(failed)), detail, found=False)
     ctx.coverage.update({
-        "evaluations": nchk + nrun,
+        "evaluations": nchk + nrun + nanc,
         "distinct_nontrivial": len(distinct),
         "rule": "MDPs from harness/gen_mdp.py (1..%d states, 1..3 actions, state-dependent action sets, k/8 probabilities, zero entries, duplicate rows, explicit/implicit absorbing states incl. absorbing initial states, multi-state initial distributions; gamma in {1/2,3/4,7/8,9/10,19/20}, or gamma = 1 with a proper MDP); heuristic in {constant upper bound, exact optimum rounded up to a double, optimum + per-state slack}; seed 0..3; randomize_action_order / randomize_nextstate_order on/off; distinct = structural hash of (MDP, heuristic, seed, flags); non-trivial = explicit graph with more than one node" % (7 if tier == "quick" else 10),
         "samples": [{"case": cases[0], "impl": {k: impl[0].get(k) for k in ("converged", "initial_value", "value_map", "policy")}}] if cases else [],
         "certificate_checks": nchk, "run_checks": nrun,
+        "ancestor_mirror_evaluations": nanc, "ancestor_mirror_drift_cases": anc_drift,
         "main_loop_iterations_checked": sum(x["steps"] for x in infos),
         "cases_with_unexplored_reachable_states": sum(1 for x in infos if x["pruned"]),
         "cases_C_smaller_than_explored": sum(1 for x in infos if x["nC"] < x["nExplored"]),
